@@ -107,11 +107,11 @@ class CacheStore(object):
 
     def _cache_is_valid(self, store_filename, filename):
         try:
-            store_mtime = os.stat(store_filename).st_mtime
+            store_mtime = os.stat(store_filename).st_mtime_ns
         except FileNotFoundError:
             return False
 
-        return store_mtime >= os.stat(filename).st_mtime
+        return store_mtime >= os.stat(filename).st_mtime_ns
 
     def _remove_filename(self, filename):
         try:
